@@ -34,7 +34,9 @@ CONSTANTS NMem,        \* members 1..NMem; NMem + 1 is an outsider
           Byz,         \* members that may send Byzantine messages
           MaxByz,      \* bound on Byzantine / outsider messages in a round
           MaxDup,      \* bound on re-sent honest messages
-          AsCoded      \* BOOLEAN
+          AsCoded,     \* BOOLEAN
+          MaxLen,      \* bound on the number of messages explored
+          Focus        \* "shares": Byzantine share messages; "keys": announcements of members' share keys
 
 Members == 1..NMem
 Outsider == NMem + 1
@@ -45,41 +47,79 @@ ByzKinds == {"otherHash", "replay", "garbage", "offcurve", "badRand", "emptyRand
              (* correlated corruptions of the two shares: each field invalid on its own, their sum right *)
              "swapped", "shiftRandom", "shiftSmall"}
 
+(* messages filed under the RECEIVER's own id (this node is member 1): garbage points, another
+   member's valid shares, the faulty sender's own valid shares *)
+Self == 1
+SelfKinds == {"selfGarbage", "selfOther", "selfSender"}
+
+(* the table (group, member) -> share key that shares are checked against.  A member announces its
+   key; a member may announce it again; someone may announce ANOTHER key for a member -- before or
+   after the genuine one -- and then file shares made with that key under the member's id.  The
+   late member's key is not known when the round starts (focus "keys"). *)
+LateMember == 2
+KeyedMember == 3
+KeyKinds == {"announce", "announceOther"}
+
 Msg(s, k, src) == [sender |-> s, kind |-> k, src |-> src]
 
 Alphabet ==
-  {Msg(s, "honest", 0) : s \in Members} \cup
-  {Msg(s, k, 0) : s \in Byz, k \in ByzKinds \ {"replay"}} \cup
-  UNION {{Msg(s, "replay", t) : t \in Members \ {s}} : s \in Byz} \cup
-  {Msg(Outsider, "nonMember", 0)}
+  IF Focus = "keys"
+    THEN {Msg(s, "honest", 0) : s \in Members} \cup
+         {Msg(LateMember, "announce", 0)} \cup
+         {Msg(s, k, 0) : s \in {LateMember, KeyedMember}, k \in {"announceOther", "underOtherKey"}}
+    ELSE {Msg(s, "honest", 0) : s \in Members} \cup
+         {Msg(s, k, 0) : s \in Byz, k \in ByzKinds \ {"replay"}} \cup
+         UNION {{Msg(s, "replay", t) : t \in Members \ {s}} : s \in Byz} \cup
+         {Msg(Self, k, 0) : k \in (IF Byz = {} THEN {} ELSE SelfKinds)} \cup
+         {Msg(Outsider, "nonMember", 0)}
 
 (* the four facts *)
 IsMember(m)  == m.sender \in Members
 Signed(m)    == IF m.kind = "otherHash" THEN OtherHash ELSE H
-SigOK(m)     == m.kind \in {"honest", "otherHash", "badRand", "emptyRand", "nonMember"}
+SigOK(m)     == m.kind \in {"honest", "otherHash", "badRand", "emptyRand", "nonMember"}        \* under the GENUINE key
 RandOK(m)    == m.kind \in {"honest", "otherHash", "garbage", "offcurve", "nonMember"}
 ValidForH(m) == SigOK(m) /\ Signed(m) = H
 Honest(m)    == m.kind = "honest"
+IsKeyMsg(m)  == m.kind \in KeyKinds
+(* validity is always meant against the member's GENUINE key: a share made with a key somebody else
+   announced for the member is not the member's share *)
 
-VARIABLES counted,    \* sender -> "the counted block share is valid for H"
+VARIABLES keys,       \* member -> "none" | "genuine" | "other": the share key the node holds for it
+          counted,    \* sender -> "the counted block share is valid for H"
           rcounted,   \* senders whose beacon share is counted
           recovered,  \* the block signature has been recovered
           sigValid,   \* ... and it verifies under the group key (finaliser's check)
           hist        \* messages handled so far
-vars == <<counted, rcounted, recovered, sigValid, hist>>
+vars == <<keys, counted, rcounted, recovered, sigValid, hist>>
 
-Init == /\ counted = <<>> /\ rcounted = {} /\ recovered = FALSE /\ sigValid = FALSE /\ hist = <<>>
+InitKeys == [s \in Members |-> IF Focus = "keys" /\ s = LateMember THEN "none" ELSE "genuine"]
+
+Init == /\ keys = InitKeys
+        /\ counted = <<>> /\ rcounted = {} /\ recovered = FALSE /\ sigValid = FALSE /\ hist = <<>>
 
 Dom(f) == DOMAIN f
 
-(* would the handler add the share of m in a state (cnt, rec)? *)
-Accepts(cnt, rec, m, ascoded) ==
+(* the key table after an announcement.  The property's rule: the table only ever holds a member's
+   genuine key and the first stored key stays.  As coded at the pinned tree: whoever announces first
+   wins (the announcer is not authenticated), later announcements change nothing. *)
+KeysAfter(ks, m, ascoded) ==
+  IF ~IsKeyMsg(m) \/ ks[m.sender] # "none" THEN ks
+  ELSE IF m.kind = "announce" THEN [ks EXCEPT ![m.sender] = "genuine"]
+  ELSE IF ascoded THEN [ks EXCEPT ![m.sender] = "other"] ELSE ks
+
+(* is the share checked against a key under which it can pass? *)
+KeyAdmits(ks, m) == IF m.kind = "underOtherKey" THEN ks[m.sender] = "other" ELSE ks[m.sender] = "genuine"
+
+(* would the handler add the share of m in a state (ks, cnt, rec)? *)
+Accepts(ks, cnt, rec, m, ascoded) ==
   /\ ~rec
+  /\ ~IsKeyMsg(m)
   /\ IsMember(m)
+  /\ KeyAdmits(ks, m)
   /\ m.sender \notin Dom(cnt)
   /\ (ascoded \/ Signed(m) = H)
-  /\ SigOK(m)
-  /\ RandOK(m)
+  /\ (SigOK(m) \/ m.kind = "underOtherKey")      \* valid under the key the table holds
+  /\ (RandOK(m) \/ m.kind = "underOtherKey")
 
 Extend(cnt, s, v) == [x \in Dom(cnt) \cup {s} |-> IF x = s THEN v ELSE cnt[x]]
 
@@ -89,7 +129,8 @@ AllValid(cnt) == \A s \in Dom(cnt) : cnt[s]
 
 Handle(m) ==
   /\ hist' = Append(hist, m)
-  /\ IF Accepts(counted, recovered, m, AsCoded)
+  /\ keys' = KeysAfter(keys, m, AsCoded)
+  /\ IF Accepts(keys, counted, recovered, m, AsCoded)
        THEN /\ counted' = Extend(counted, m.sender, ValidForH(m))
             /\ rcounted' = rcounted \cup {m.sender}
             /\ IF Cardinality(Dom(counted')) >= KThr
@@ -98,16 +139,19 @@ Handle(m) ==
        ELSE UNCHANGED <<counted, rcounted, recovered, sigValid>>
 
 Count(P(_)) == Cardinality({i \in 1..Len(hist) : P(hist[i])})
-NotHonest(m) == ~Honest(m)
+NotHonest(m) == ~Honest(m) /\ m.kind # "announce"
 Delivered(m) == \E i \in 1..Len(hist) : hist[i] = m
 
 CanDeliver(m) ==
-  IF Honest(m)
-    THEN ~Delivered(m) \/ Cardinality({i \in 1..Len(hist) : Honest(hist[i])})
-                            - Cardinality({s \in Members : Delivered(Msg(s, "honest", 0))}) < MaxDup
+  IF m.kind = "announce" THEN Cardinality({i \in 1..Len(hist) : hist[i] = m}) < 2     \* announce, re-announce
+  ELSE IF Honest(m)
+    THEN (* a member sends its share after it announced its key *)
+         keys[m.sender] # "none" /\
+         (~Delivered(m) \/ Cardinality({i \in 1..Len(hist) : Honest(hist[i])})
+                            - Cardinality({s \in Members : Delivered(Msg(s, "honest", 0))}) < MaxDup)
     ELSE ~Delivered(m) /\ Count(NotHonest) < MaxByz
 
-Next == \E m \in Alphabet : CanDeliver(m) /\ Handle(m)
+Next == Len(hist) < MaxLen /\ \E m \in Alphabet : CanDeliver(m) /\ Handle(m)
 
 Spec == Init /\ [][Next]_vars
 
@@ -115,11 +159,14 @@ Spec == Init /\ [][Next]_vars
 (* The property *)
 OnlyValidShares == AllValid(counted)
 ThresholdImpliesValidGroupSig == recovered => sigValid
-FaultyMembers == {hist[i].sender : i \in {j \in 1..Len(hist) : ~Honest(hist[j]) /\ IsMember(hist[j])}}
+FaultyMembers == {hist[i].sender : i \in {j \in 1..Len(hist) : NotHonest(hist[j]) /\ IsMember(hist[j])}}
 AllHonestDelivered == \A s \in Members \ FaultyMembers : Delivered(Msg(s, "honest", 0))
 OneFaultTolerated ==
   (Cardinality(FaultyMembers) <= 1 /\ AllHonestDelivered) => (recovered /\ sigValid)
 BeaconFollowsBlock == rcounted = Dom(counted)
+(* shares are checked against the member's own key: the table never holds another one, and a stored
+   key is never replaced *)
+KeyTableGenuine == \A s \in Members : keys[s] \in {"none", "genuine"}
 TypeOK == Dom(counted) \subseteq Members /\ Cardinality(Dom(counted)) <= KThr
 
 ASSUME KThr <= NMem - 1 /\ Byz \subseteq Members
